@@ -4,6 +4,7 @@ import (
 	"bytes"
 	"context"
 	"crypto/sha256"
+	"encoding/binary"
 	"fmt"
 	"sort"
 	"strings"
@@ -63,6 +64,10 @@ func genC12(seed uint64, index int, tier string) *run.Plan {
 		for i := 0; i < n; i++ {
 			kind := []string{"req", "req", "req", "gettime", "mcinfo", "isok", "waitseq", "waitblock"}[g.Intn(8)]
 			op := run.Op{Kind: kind, Caller: c, AtMs: g.Intn(span + 1), A: []int{0, 1, 5, 32, 200, 253, 254, 255, 1000, 70000}[g.Intn(10)]}
+			if kind == "req" && g.Intn(3) == 0 {
+				// the answer is padded: every size class of the TL bytes encoding and of the client's read buffers
+				op.B = []int{1, 200, 213, 214, 215, 4000, 65535 - 40, 65536 - 40, 65536, 100000, 1 << 20}[g.Intn(11)]
+			}
 			if kind == "waitseq" || kind == "waitblock" {
 				op.A = 98 + g.Intn(4)                      // target seqno around the server's head (100)
 				op.B = []int{1, 100, 700, 3000}[g.Intn(4)] // server-side wait in ms
@@ -169,6 +174,25 @@ func c12payload(seed uint64, caller, k, size int) []byte {
 	return b
 }
 
+// c12sized marks a payload as asking for an answer padded by pad bytes (see litesrv echo).
+func c12sized(b []byte, pad int) []byte {
+	for len(b) < 12 {
+		b = append(b, 0)
+	}
+	b[7] = 0xEF
+	binary.LittleEndian.PutUint32(b[8:12], uint32(pad))
+	return b
+}
+
+func c12echoPad(payload []byte, pad int) []byte {
+	h := sha256.Sum256(payload)
+	out := make([]byte, pad)
+	for i := range out {
+		out[i] = h[i%32] ^ byte(i>>5)
+	}
+	return out
+}
+
 func execC12(t *testing.T, w *core.World, p *run.Plan, r *run.Result) {
 	sch := liteSchema()
 	srv := litesrv.New(w, serverKeyFromSeed(p.Seed, 0), sch, 0, 100)
@@ -219,6 +243,8 @@ func execC12(t *testing.T, w *core.World, p *run.Plan, r *run.Result) {
 	tReady := w.Now()
 	setPCT(w, p)
 	dialsAtReady := h.Dials
+	gReady := core.BubbleGoroutines()
+	profReady := core.BubbleGoroutineProfile()
 	if dialsAtReady != nconn {
 		// a stall during the setup can outlast the 10 s silence timer of a connection that is already up
 		w.Probe("reconnect-during-setup")
@@ -231,6 +257,9 @@ func execC12(t *testing.T, w *core.World, p *run.Plan, r *run.Result) {
 		o := &c12op{op: op, caller: op.Caller, k: len(byCaller[op.Caller])}
 		if op.Kind == "req" {
 			o.payload = c12payload(p.Seed, o.caller, o.k, op.A)
+			if op.B > 0 {
+				o.payload = c12sized(o.payload, op.B)
+			}
 		}
 		ops = append(ops, o)
 		byCaller[op.Caller] = append(byCaller[op.Caller], o)
@@ -485,6 +514,7 @@ func execC12(t *testing.T, w *core.World, p *run.Plan, r *run.Result) {
 	})
 	w.Run(func() bool { mu.Lock(); defer mu.Unlock(); return probesDone }, w.Steps+20000, w.Now()+timeout*time.Duration(nconn)+5*time.Second)
 	gEnd := core.BubbleGoroutines()
+	profEnd := core.BubbleGoroutineProfile()
 
 	// ---- oracles ----
 	tagOf := func() string {
@@ -545,7 +575,7 @@ func execC12(t *testing.T, w *core.World, p *run.Plan, r *run.Result) {
 			switch o.op.Kind {
 			case "req":
 				hh := sha256.Sum256(o.payload)
-				if len(o.resp) != 40 || !bytes.Equal(o.resp[:4], []byte("ECHO")) || !bytes.Equal(o.resp[4:36], hh[:]) {
+				if len(o.resp) != 40+o.op.B || !bytes.Equal(o.resp[:4], []byte("ECHO")) || !bytes.Equal(o.resp[4:36], hh[:]) || !bytes.Equal(o.resp[40:], c12echoPad(o.payload, o.op.B)) {
 					w.Violate("C12.S1", "C12.S1|wrong-answer", fmt.Sprintf("%s got %d bytes %x.. which is not the server's answer for its own payload", name, len(o.resp), head(o.resp)))
 				}
 			case "gettime":
@@ -619,6 +649,17 @@ func execC12(t *testing.T, w *core.World, p *run.Plan, r *run.Result) {
 		if h.Dials != dialsAtReady {
 			w.Violate("C12.F", "C12.F|reconnect|faultfree", fmt.Sprintf("%d extra dials in a fault-free run", h.Dials-dialsAtReady))
 		}
+	}
+	// G3: whatever happened in between, a healthy client at the end of the drain runs the goroutines a healthy client
+	// ran after the setup; a kind of goroutine of the library that there are two or more of in excess is a leak
+	for _, l := range core.GoroutineLeaks(profReady, profEnd) {
+		fn := strings.SplitN(l, ":", 2)[0]
+		w.Violate("C12.G3", "C12.G3|goroutine-leak|"+fn[strings.LastIndex(fn, "/")+1:], fmt.Sprintf("goroutines left behind after the drain (all calls returned, faults over for %v): %s; %d dials since the setup", w.Now()-lastFault, l, h.Dials-dialsAtReady))
+	}
+	if d := gEnd - gReady; d != 0 {
+		w.Probe(fmt.Sprintf("goroutines-after-drain-vs-ready=%+d", max(-3, min(d, 5))))
+	} else {
+		w.Probe("goroutines-after-drain-vs-ready=0")
 	}
 	// G1: goroutines do not grow with completed calls (compared only when no dial happened in between)
 	if gEnd > gMid && reconnects == h.Dials-dialsAtReady && faultFree {
